@@ -26,10 +26,27 @@ impl ConfigFile {
 
         manifest_dir_path.pop();
 
-        let Some((before, i18n_cfg)) = cfg_file_str.split_once("[package.metadata.leptos-i18n]")
-        else {
+        const HEADER: &str = "[package.metadata.leptos-i18n]";
+
+        // the table header is the first occurrence that starts its line: the same text in a comment
+        // or in a string (`description = "see [package.metadata.leptos-i18n]"`) is not the header.
+        let header_start = cfg_file_str
+            .match_indices(HEADER)
+            .map(|(i, _)| i)
+            .find(|i| {
+                let line_start = cfg_file_str[..*i].rfind('\n').map_or(0, |n| n + 1);
+                cfg_file_str[line_start..*i]
+                    .trim_start_matches('\u{feff}')
+                    .trim()
+                    .is_empty()
+            });
+
+        let Some(header_start) = header_start else {
             return Err(Error::ConfigNotPresent.into());
         };
+
+        let before = &cfg_file_str[..header_start];
+        let i18n_cfg = &cfg_file_str[header_start + HEADER.len()..];
 
         // this is to have the correct line number in the reported error.
         let cfg_file_whitespaced = before
